@@ -278,6 +278,16 @@ class ChildrenList(list):
             self._set_parent_link(item)
         self._node_reference.update_signal()
 
+    def __iadd__(self, items):
+        ''' In-place addition is an extend (with children node validation).
+
+        :param items: list of items to be appened to the list.
+        :type items: list of :py:class:`psyclone.psyir.nodes.Node`
+
+        '''
+        self.extend(items)
+        return self
+
     # Methods below don't insert elements but have the potential to displace
     # or change the order of the items in-place.
     def __delitem__(self, index):
@@ -962,11 +972,22 @@ class Node():
 
         :raises TypeError: if the given children parameter is not a list.
         '''
+        if my_children is self._children:
+            return  # e.g. after 'node.children += [...]'
         if isinstance(my_children, list):
-            self.pop_all_children()  # First remove existing children if any
+            new_children = list(my_children)
+            # First remove existing children if any
+            old_children = self.pop_all_children()
             self._children = ChildrenList(self, self._validate_child,
                                           self._children_valid_format)
-            self._children.extend(my_children)
+            try:
+                self._children.extend(new_children)
+            except Exception:
+                # Leave the node as it was
+                self._children = ChildrenList(self, self._validate_child,
+                                              self._children_valid_format)
+                self._children.extend(old_children)
+                raise
         else:
             raise TypeError("The 'my_children' parameter of the node.children"
                             " setter must be a list.")
